@@ -41,12 +41,14 @@ Print Assumptions C08_factor_code_writer_encoding.
     The full statement was FALSE of the code before the repairs fa4e4ec, 7315827, 0f60141, 7fea917, ea123da:
     see C08_old_code_refuted_* below.
     Schemas with by-name references (recursive types included) are covered by C08_factor_zone_refs_partial below,
-    with the same conditions followed through the named-type tables to the depth of the value.
+    with the same conditions followed through the named-type tables to the depth of the value, and by
+    C08_factor_zone_refs_any_height_partial for values of any height (closed-set certificate [agree_all]).
     All zone theorems, the identity and the error lemmas hold for ANY reader options [o] (return_record_name,
     return_named_type and their _override variants): the specification [resolve o] pairs the value read from a writer
     union with the name the reader calls its type by ([wrap_spec]), and the code's wrapping is proved equal to it.
-    MISSING for full strength: logicalType annotations on non-primitive types, nested unions - for those
-    C08_factor_code (all inputs) and the correspondence check stand. *)
+    (Unknown) logicalType annotations on array / map / named-type nodes are transparent: C08_factor_zone_annot_partial,
+    C08_factor_zone_refs_annot_partial.  NOT covered: unions that immediately contain unions - no Avro schemas (and no
+    union is reached through a reference: C08_no_union_behind_reference); for them C08_factor_code (all inputs) stands. *)
 Theorem C08_factor_zone_partial : forall o, forall n we w a, typedn n we w a ->
   forall re r f x, (n <= f)%nat -> inline w = true -> inline r = true -> agree we re w r = true ->
   rdec f we re o w (Some r) (wire a ++ x)%list = lift x (resolve o we re w r a).
